@@ -11,11 +11,45 @@ import x12ol
 import x13zb
 
 
+def optional_work(ctx, only=None):
+    """OptWork.tla: the NSEC3 hash operations of one request tree, required and optional spenders.  The conformant
+    model keeps their sum within max_nsec3_hashes; the as-built twin (optional spenders on private allowances, outside
+    the ledger) must violate WithinBudget.  Every Init choice whose optional need exceeds / stays within the budget is
+    asked of the real full pipeline over a really signed NSEC3 zone; the hash operations a tree started are read from
+    the production per-tree memo."""
+    import vf
+    ctx.tlc("OptWork", "MC_OptWork.tla", "MC_OptWork.cfg", workers=2, timeout=300, heap="2g")
+    neg = ctx.tlc("OptWork", "MC_OptWork.tla", "MC_OptWork_asbuilt.cfg", workers=2, timeout=300, heap="2g", must_pass=False,
+                  count=False, tag="as built: optional NSEC3 work outside the ledger (must violate WithinBudget)")
+    if neg.violated != "WithinBudget":
+        raise vf.MachineryError("MC_OptWork_asbuilt.cfg did not violate WithinBudget (violated=%s rc=%s)" % (neg.violated, neg.rc))
+    # the model's Init choices, concretised: copt need 3 -> a name 1 label below the zone, 14 -> 12 labels below
+    cases = [{"max": m, "depth": d, "mode": "enforce"} for m in (2, 8, 16) for d in (1, 12)]
+    cases += [{"max": 8, "depth": 12, "mode": "shadow"}]
+    if only:
+        cases = [only]
+    res = ctx.go_driver("./c12aud", "TestOptWork", {"cases": cases}, name="optwork", timeout=600)
+    ctx.take_driver_result(res, "")
+    c = res.get("counters", {})
+    if res.get("skipped"):
+        raise vf.MachineryError("optional-work stage skipped cases: %s" % res["skipped"][:3])
+    if not only and (c.get("optwork_trees_with_optional_hashes", 0) == 0 or c.get("optwork_within_budget_trees", 0) == 0):
+        raise vf.MachineryError("optional-work stage is vacuous: %s" % c)
+    ctx.log("optional NSEC3 work: trees with optional hashes %d, within budget %d, over budget %d" % (
+        c.get("optwork_trees_with_optional_hashes", 0), c.get("optwork_within_budget_trees", 0), c.get("optwork_over_budget_trees", 0)))
+
+
 def run(ctx, replay):
     if replay:
         import json
         with open(replay) as f:
             drv = (json.load(f).get("replay") or {}).get("driver", "")
+        if drv == "optwork":
+            with open(replay) as f:
+                optional_work(ctx, only=json.load(f)["replay"]["case"])
+            ctx.cov["states"] = max(ctx.cov["states"], 1)
+            ctx.cov["transitions"] = max(ctx.cov["transitions"], 1)
+            return
         if str(drv).startswith("x12ol") or str(drv).startswith("objloop"):
             ctx.overlay_tags.add("x12ol")
             x12ol.run(ctx, replay)
@@ -33,6 +67,7 @@ def run(ctx, replay):
         return
     c12_core.run_core(ctx)
     c12_topo.run_topo(ctx)
+    optional_work(ctx)
     # forwarder mode: every upstream attempt (retries, TCP fallbacks, failover) is debited before it is made and the
     # scripted upstreams never see more packets than the budget (Forward.tla)
     ctx.overlay_tags.add("x11fw")
